@@ -14,6 +14,7 @@ ORDER = ("c09", "r3_total_order", "C09.R3", "`better` is the numeric order of ob
 REQUIRE = ("c03", "r8_require", "C03.R8", "a requirement is met by state of any enclosing scope")
 
 SUGAR = ("c01", "r6_named_accessors", "C01.R6", "State's named accessors (populations_mut, random_mut, iterations, best_individual, ...) are the registry accessors of the named type")
+OWNKEYS = ("c16", "r8_state_keys", "C16.R8", "a component reads its run-time parameters and its evaluator / memories under its own instantiation and identifier")
 EQUALITY = ("c07", "r7_individual_equality", "C07.R7", "two individuals are equal iff solution and objective are equal")
 
 DEPS = {
@@ -21,20 +22,20 @@ DEPS = {
     "C03": [REGISTRY, SCOPES, SUGAR],
     "C04": [SUGAR],
     "C05": [SUGAR],
-    "C06": [REGISTRY, STACK, SUGAR],
-    "C07": [REGISTRY, STACK, SUGAR],
+    "C06": [REGISTRY, STACK, SUGAR, OWNKEYS],
+    "C07": [REGISTRY, STACK, SUGAR, OWNKEYS],
     "C08": [REGISTRY, SUGAR],
     "C10": [REGISTRY, SUGAR],
     "C11": [STACK, SUGAR],
     "C12": [STACK, SUGAR],
-    "C13": [STACK, REGISTRY, SUGAR],
+    "C13": [STACK, REGISTRY, SUGAR, OWNKEYS],
     "C14": [STACK, SUGAR],
     "C15": [REGISTRY, SUGAR],
     "C16": [REGISTRY, STACK, ORDER, REQUIRE, EQUALITY, SUGAR],
-    "C17": [STACK, REGISTRY, SUGAR],
-    "C18": [STACK, ORDER, REGISTRY, SUGAR],
-    "C19": [STACK, ORDER, REGISTRY, SUGAR],
-    "C20": [STACK, REGISTRY, EQUALITY, SUGAR],
+    "C17": [STACK, REGISTRY, SUGAR, OWNKEYS],
+    "C18": [STACK, ORDER, REGISTRY, SUGAR, OWNKEYS],
+    "C19": [STACK, ORDER, REGISTRY, SUGAR, OWNKEYS],
+    "C20": [STACK, REGISTRY, EQUALITY, SUGAR, OWNKEYS],
 }
 
 
